@@ -8,7 +8,9 @@
  *
  * Case = setup tokens and step tokens separated by blanks:
  *   L<hi>           descriptors 3..hi are kept busy while the loop is created
- *   f<fd>=<n><c|n>  file <dir>/f<n> (n=0: /dev/null) on descriptor fd, c = FD_CLOEXEC
+ *   f<fd>=<n><c|n>  private file n (1..60; n=0: /dev/null) on descriptor fd, c = FD_CLOEXEC
+ *                   (the worker's own 0,1,2 are private files 61,62,63; the result line
+ *                   goes to a close-on-exec copy of stdout at 250+)
  *   r               report pipe: write end 100 (inheritable), read end 101
  *   g<n>            gate n: read end 110+2n (inheritable), write end 111+2n
  *   S<h>:<stdio>:<action>:<gate|->:<flags>   uv_spawn of child h
@@ -112,6 +114,12 @@ static size_t outn;
                       if (outn > sizeof out - 4096) outn = sizeof out - 4096; } while (0)
 
 static const char* g_dir;
+static char w_dir[4200];
+static int resfd = 1;
+static void file_path(char* path, size_t cap, int n) {
+  if (n == 0) snprintf(path, cap, "/dev/null");
+  else snprintf(path, cap, "%s/f%d", w_dir, n);
+}
 static char self_path[4096];
 static uv_loop_t loop;
 static uv_process_t* procs[MAXP];
@@ -298,7 +306,28 @@ static void run_case(char* line) {
   int nullfd;
 
   alarm(25);
-  for (fd = 3; fd < 1024; fd++) close(fd);
+  resfd = fcntl(1, F_DUPFD_CLOEXEC, 250);
+  for (fd = 3; fd < 1024; fd++) if (fd != resfd) close(fd);
+  snprintf(w_dir, sizeof w_dir, "%s/w%d", g_dir, (int) getpid());
+  mkdir(w_dir, 0700);
+  {
+    struct stat st;
+    if (stat("/dev/null", &st) == 0)
+      OUT("F0=%llu.%llu ", (unsigned long long) st.st_dev, (unsigned long long) st.st_ino);
+  }
+  /* the worker's own 0,1,2 become private files 61,62,63 */
+  for (fd = 0; fd < 3; fd++) {
+    char path[4300];
+    struct stat st;
+    int tmp;
+    file_path(path, sizeof path, 61 + fd);
+    tmp = open(path, O_RDWR | O_APPEND | O_CREAT, 0600);
+    if (tmp < 0) { OUT("open-failed:%s ", path); continue; }
+    if (tmp != fd) { dup2(tmp, fd); close(tmp); }
+    nfiles_seen[61 + fd] = 1;
+    if (fstat(fd, &st) == 0)
+      OUT("F%d=%llu.%llu ", 61 + fd, (unsigned long long) st.st_dev, (unsigned long long) st.st_ino);
+  }
 
   /* find L<hi> first */
   { char* p = strstr(line, "L"); if (p && (p == line || p[-1] == ' ')) hi = atoi(p + 1); }
@@ -317,12 +346,16 @@ static void run_case(char* line) {
     case 'L': break;
     case 'f':
       if (sscanf(tok + 1, "%d=%d%c", &a, &b, &c) == 3) {
-        char path[4200];
+        char path[4300];
+        struct stat st;
         int tmp;
-        if (b == 0) snprintf(path, sizeof path, "/dev/null");
-        else { snprintf(path, sizeof path, "%s/f%d", g_dir, b); if (b < 64) nfiles_seen[b] = 1; }
-        tmp = open(path, O_RDWR | O_APPEND);
+        if (b < 0 || b > 60) break;
+        file_path(path, sizeof path, b);
+        tmp = open(path, O_RDWR | O_APPEND | O_CREAT, 0600);
         if (tmp < 0) { OUT("open-failed:%s ", path); break; }
+        if (b > 0 && !nfiles_seen[b] && fstat(tmp, &st) == 0)
+          OUT("F%d=%llu.%llu ", b, (unsigned long long) st.st_dev, (unsigned long long) st.st_ino);
+        if (b > 0) nfiles_seen[b] = 1;
         place(tmp, a, c == 'c');
       }
       break;
@@ -380,7 +413,7 @@ static void run_case(char* line) {
     }
     case 'C': {
       int h = atoi(tok + 1);
-      if (h >= 0 && h < MAXP && procs[h] && !closed[h]) { closed[h] = 1; uv_close((uv_handle_t*) procs[h], close_cb); }
+      if (h >= 0 && h < MAXP && procs[h] && !closed[h]) { closed[h] = 1; uv_close((uv_handle_t*) procs[h], close_cb); OUT("C%d ", h); }
       break;
     }
     case 'I': inj_eintr = atoi(tok + 1); break;
@@ -408,11 +441,13 @@ static void run_case(char* line) {
     OUT(" ");
   }
   for (i = 1; i < 64; i++) if (nfiles_seen[i]) {
-    char path[4200];
+    char path[4300];
     struct stat st;
-    snprintf(path, sizeof path, "%s/f%d", g_dir, i);
-    if (stat(path, &st) == 0) OUT("m%d:%lld ", i, (long long) st.st_size);
+    file_path(path, sizeof path, i);
+    if (stat(path, &st) == 0 && st.st_size != 0) OUT("m%d:%lld ", i, (long long) st.st_size);
+    unlink(path);
   }
+  rmdir(w_dir);
 }
 
 int main(int argc, char** argv) {
@@ -435,7 +470,7 @@ int main(int argc, char** argv) {
       ssize_t k;
       run_case(line);
       OUT("\n");
-      k = write(1, out, outn);
+      k = write(resfd, out, outn);
       (void) k;
       _exit(0);
     }
